@@ -322,6 +322,176 @@ def envPairs (i : RtIn) : List (Bytes × Bytes) :=
 
 def isHttpKey (k : Bytes) : Bool := k.take 5 == sHTTP_
 
+
+/-! ### streamReader.Read call by call (the `(n, err)` contract) -/
+
+inductive RErr | nil | eof | short | ver
+deriving DecidableEq, Repr
+
+/-- `record.read`: (content, error, what is left of the connection).  On an error the bytes already consumed stay
+    consumed: after END_REQUEST its 8-byte body is still unread, so a further Read parses it as a record header. -/
+def recRead (conn : Bytes) : Option Bytes × RErr × Bytes :=
+  if conn.length = 0 then (none, .eof, [])
+  else match splitHeader conn with
+    | none => (none, .short, [])
+    | some (v, t, _, cl, pl, rest) =>
+      if v ≠ 1 then (none, .ver, rest)
+      else if t = 3 then (none, .eof, rest)
+      else if cl + pl = 0 then (some [], .nil, rest)
+      else if rest.length = 0 then (none, .eof, [])
+      else if rest.length < cl + pl then (none, .short, [])
+      else (some (rest.take cl), .nil, rest.drop (cl + pl))
+
+structure RdState where
+  conn : Bytes
+  buf : Bytes
+deriving DecidableEq, Repr
+
+/-- one `streamReader.Read(p)` with `len(p) = s`: new state, delivered bytes, error -/
+def readStep (st : RdState) (s : Nat) : RdState × Bytes × RErr :=
+  if s = 0 then (st, [], .nil)
+  else if st.buf.length = 0 then
+    match recRead st.conn with
+    | (some c, _, rest) => ({ conn := rest, buf := c.drop s }, c.take s, .nil)
+    | (none, e, rest) => ({ conn := rest, buf := [] }, [], e)
+  else ({ st with buf := st.buf.drop s }, st.buf.take s, .nil)
+
+def readSteps (conn : Bytes) (sizes : List Nat) : List (Nat × RErr) × Bytes :=
+  let r := sizes.foldl (fun (acc : RdState × List (Nat × RErr) × Bytes) s =>
+    let (st', d, e) := readStep acc.1 s
+    (st', acc.2.1 ++ [(d.length, e)], acc.2.2 ++ d)) (⟨conn, []⟩, [], [])
+  r.2
+
+/-! ### io.Copy(stdin writer, body) through bfe_bufio.Writer.ReadFrom with a body reader that returns the body in pieces
+
+  `ReadFrom`: `for { if Available()==0 { flush }; m, err = r.Read(buf[n:]); if m == 0 { break }; … }` — an EMPTY read with a
+  nil error ends the copy (Go's bufio retries instead), so the rest of the body is never sent.  `sizes` = the sizes the
+  reader would like to return (0 = empty read), after them the rest in one piece; every read is capped by the free
+  buffer space.  Result: how many body bytes reach the FastCGI application. -/
+def bodyPos : Nat → Nat → Nat → Nat → List Nat → Nat
+  | 0, _, pos, _, _ => pos
+  | fuel + 1, len, pos, buffered, sizes =>
+    let buffered := if buffered = maxWrite then 0 else buffered
+    if len - pos = 0 then pos
+    else
+      let s := match sizes with
+        | [] => len - pos
+        | x :: _ => x
+      if s = 0 then pos
+      else
+        let m := min s (min (maxWrite - buffered) (len - pos))
+        bodyPos fuel len (pos + m) (buffered + m) sizes.tail
+
+def bodyDelivered (body : Bytes) (sizes : List Nat) : Bytes :=
+  body.take (bodyPos (sizes.length + body.length / maxWrite + 3) body.length 0 0 sizes)
+
+/-! ### the HTTP response built from the stream: `readResponse` (transport.go) over textproto.ReadMIMEHeader
+
+  Modelled for header blocks whose lines do not start with SP/HT (no continuation lines) and that end with a blank
+  line; otherwise `unmodelled`.  A line without a colon is a ProtocolError (-> `err`). -/
+def isTokenByte (c : UInt8) : Bool :=
+  let n := c.toNat
+  (48 ≤ n && n ≤ 57) || (65 ≤ n && n ≤ 90) || (97 ≤ n && n ≤ 122) ||
+  [33, 35, 36, 37, 38, 39, 42, 43, 45, 46, 94, 95, 96, 124, 126].contains n
+
+/-- `canonicalMIMEHeaderKey` -/
+def canonKey (k : Bytes) : Bytes :=
+  if k.all isTokenByte then
+    (k.foldl (fun (acc : Bytes × Bool) c =>
+      let c' := if acc.2 && 97 ≤ c.toNat && c.toNat ≤ 122 then c - 32
+                else if !acc.2 && 65 ≤ c.toNat && c.toNat ≤ 90 then c + 32 else c
+      (acc.1 ++ [c'], c' == 45)) ([], true)).1
+  else k
+
+def isWs (c : UInt8) : Bool := c == 32 || c == 9
+def trimWs (s : Bytes) : Bytes := ((s.dropWhile isWs).reverse.dropWhile isWs).reverse
+
+/-- first line (without its LF and one CR before it) and the rest; `none` when there is no LF -/
+def splitLine : Bytes → Option (Bytes × Bytes)
+  | [] => none
+  | 10 :: rest => some ([], rest)
+  | c :: rest => match splitLine rest with
+    | none => none
+    | some (l, r) => some (c :: l, r)
+
+def stripCR (l : Bytes) : Bytes := if l.getLast? == some 13 then l.dropLast else l
+
+inductive HdrParse
+  | ok (hdrs : List (Bytes × Bytes)) (body : Bytes)
+  | err
+  | unmodelled
+
+def parseHdrBlock : Nat → Bytes → List (Bytes × Bytes) → HdrParse
+  | 0, _, _ => .unmodelled
+  | fuel + 1, s, acc =>
+    match splitLine s with
+    | none => .unmodelled
+    | some (l0, rest) =>
+      let l := stripCR l0
+      if l.length = 0 then .ok acc rest
+      else if isWs (l.headD 0) then .unmodelled
+      else
+        let kv := trimWs l
+        match kv.idxOf? 58 with
+        | none => .err
+        | some i =>
+          let key := canonKey (kv.take i)
+          let value := (kv.drop (i + 1)).dropWhile isWs
+          if key.length = 0 then parseHdrBlock fuel rest acc
+          else parseHdrBlock fuel rest (acc ++ [(key, value)])
+
+/-- `strconv.Atoi` / `ParseInt(s, 10, 64)` -/
+def atoi (s : Bytes) : Option Int :=
+  let (neg, ds) := match s with
+    | 43 :: r => (false, r)
+    | 45 :: r => (true, r)
+    | r => (false, r)
+  if ds.length = 0 || !(ds.all fun c => 48 ≤ c.toNat && c.toNat ≤ 57) then none
+  else
+    let v : Nat := ds.foldl (fun (a : Nat) c => a * 10 + (c.toNat - 48)) 0
+    if neg then (if v > 9223372036854775808 then none else some (-(v : Int)))
+    else (if v > 9223372036854775807 then none else some (v : Int))
+
+structure CgiResp where
+  code : Int
+  status : Bytes
+  hdrs : List (Bytes × List Bytes)   -- canonical key, values in order of appearance; keys in order of first appearance
+  contentLength : Int
+  te : List Bytes
+  body : Bytes
+
+inductive CgiResult
+  | resp (r : CgiResp)
+  | err
+  | unmodelled
+
+def groupHdrs (kvs : List (Bytes × Bytes)) : List (Bytes × List Bytes) :=
+  (kvs.map (·.1)).eraseDups.map fun k => (k, (kvs.filter (fun p => p.1 == k)).map (·.2))
+
+def sStatus : Bytes := [83, 116, 97, 116, 117, 115]
+def sCLen : Bytes := [67, 111, 110, 116, 101, 110, 116, 45, 76, 101, 110, 103, 116, 104]
+def sTE : Bytes := [84, 114, 97, 110, 115, 102, 101, 114, 45, 69, 110, 99, 111, 100, 105, 110, 103]
+def sChunked : Bytes := [99, 104, 117, 110, 107, 101, 100]
+
+def readResponse (stream : Bytes) : CgiResult :=
+  match parseHdrBlock (stream.length + 1) stream [] with
+  | .unmodelled => .unmodelled
+  | .err => .err
+  | .ok kvs body =>
+    let hdrs := groupHdrs kvs
+    let get (k : Bytes) : Bytes := ((hdrs.find? (fun p => p.1 == k)).bind (·.2.head?)).getD []
+    let st := get sStatus
+    let te := ((hdrs.find? (fun p => p.1 == sTE)).map (·.2)).getD []
+    let cl := (atoi (get sCLen)).getD 0
+    if te.head? == some sChunked then .unmodelled
+    else if st.length = 0 then .resp ⟨200, [], hdrs, cl, te, body⟩
+    else
+      let p0 := st.takeWhile (· != 32)
+      let p1 := (st.dropWhile (· != 32)).drop 1
+      match atoi p0 with
+      | none => .err
+      | some c => .resp ⟨c, p1, hdrs, cl, te, body⟩
+
 /-! ## SPEC: FastCGI 1.0 decoder (record layer §3.3, name-value pairs §3.4, streams §3.3/§5) -/
 
 structure Rec where
